@@ -39,6 +39,9 @@ func budget(r *ev.Run, quick, thorough time.Duration) time.Duration {
 
 func main() {
 	if len(os.Args) > 2 && os.Args[1] == "replay" {
+		if replayA(os.Args[2]) {
+			return
+		}
 		replay(os.Args[2])
 		return
 	}
@@ -56,19 +59,32 @@ func main() {
 	if mine {
 		defer os.RemoveAll(scratch)
 	}
-	t0 := time.Now()
-	built, err := cserve.Build(scratch, []string{cserve.Asan, cserve.Plain}, allModules())
-	if err != nil {
-		ev.Fatal("cserve build: %v", err)
-	}
-	// the exploration budget starts after the C build (reported separately as build_ms)
 	r.SetBudget(24*time.Hour, 24*time.Hour)
-	deadline = time.Now().Add(budget(r, 8*time.Minute, 40*time.Minute))
-	r.Add("build_ms", time.Since(t0).Milliseconds())
-	built.HangTimeout = 90 * time.Second
-
-	b := partB(r, built)
-	// partA(r) — generated coroutines — goes here.
+	only := os.Getenv("VERIF_C05_ONLY") // "a" or "b": one half only (development / self-tests)
+	var b bResult
+	built := &cserve.Built{}
+	if only != "a" {
+		t0 := time.Now()
+		built, err = cserve.Build(scratch, []string{cserve.Asan, cserve.Plain}, allModules())
+		if err != nil {
+			ev.Fatal("cserve build: %v", err)
+		}
+		// the exploration budget starts after the C build (reported separately as build_ms)
+		deadline = time.Now().Add(budget(r, 6*time.Minute, 30*time.Minute))
+		r.Add("build_ms", time.Since(t0).Milliseconds())
+		built.HangTimeout = 90 * time.Second
+		b = partB(r, built)
+	} else {
+		b.complete = true
+	}
+	// part (a): generated coroutines (progen coro/io families + local extras) on the C generated for
+	// them, one-shot vs chunked per plan vs the reference interpreter's ideal semantics
+	var pa partAResult
+	if only != "b" {
+		pa = partA(r, time.Now().Add(budget(r, 4*time.Minute, 25*time.Minute)))
+	} else {
+		pa.complete = true
+	}
 
 	var skipped []string
 	for k, v := range r.Counters {
@@ -78,21 +94,20 @@ func main() {
 	}
 	sort.Strings(skipped)
 	r.Finish(ev.Coverage{
-		Evaluations:        b.evals,
-		DistinctNontrivial: b.nontrivial,
-		Rule: fmt.Sprintf("part (b), std decoders: inputs = files of test/data up to %d bytes for %d std packages + the valid streams of C07's reference-encoder families up to 64 bytes (images up to 200 bytes) + short JSON/CBOR documents, deduplicated; "+
+		Evaluations:        b.evals + pa.evals,
+		DistinctNontrivial: b.nontrivial + pa.nontrivial,
+		Rule: "part (a), generated coroutines: " + pa.rule + " || " + fmt.Sprintf("part (b), std decoders: inputs = files of test/data up to %d bytes for %d std packages + the valid streams of C07's reference-encoder families up to 64 bytes (images up to 200 bytes) + short JSON/CBOR documents, deduplicated; "+
 			"scripts per input (n source bytes, m output bytes/tokens): every single source split 0..n (n = everything given, closed only in a later call), every single destination-capacity split 0..m (transformers, token decoders), "+
 			"1-byte-at-a-time source, destination and both, steps 2/3/5/16, every pair of source splits when n <= 24; image decoders: the splits run across decode_image_config / decode_frame_config / decode_frame...; "+
 			"large inputs have their single-split positions strided (%s). evaluations = chunked runs compared with the one-shot run; distinct non-trivial = distinct (input, script) pairs in which at least one call suspended and resumed and the comparison passed",
 			b.maxSeed, b.nPkgs, b.strideNote),
-		Exhaustive: b.complete,
-		Extra:      map[string]any{"skipped": skipped, "cserve_compile_seconds": built.CompileSeconds, "cserve_gen_seconds": built.GenSeconds, "inputs_by_package": b.byPkg, "largest_input_with_all_single_splits": b.largestFull},
-	}, []string{
+		Exhaustive: b.complete && pa.complete,
+		Extra:      map[string]any{"part_a": pa.extra, "part_a_programs": pa.programs, "skipped": skipped, "cserve_compile_seconds": built.CompileSeconds, "cserve_gen_seconds": built.GenSeconds, "inputs_by_package": b.byPkg, "largest_input_with_all_single_splits": b.largestFull},
+	}, append([]string{
 		"driver policy (DESIGN E4): work buffer re-queried and resized before every call; `$short read` with pieces left -> next piece; `$short write` -> next destination buffer (each call sees only the free space); a `$short read` on a closed, fully supplied source is C03's business: counted, retried once, and only the final result is compared",
 		"inputs whose one-shot run ends in an error are compared on status and output only (the property exempts the consumed count after an error)",
 		"outputs above 8 KiB and pixel buffers are compared by length and a 64-bit hash computed in the server, smaller outputs byte for byte",
 		"token streams are compared in the normal form described in checks/c05/tokens.go (doc/note/tokens.md does not promise where runs of filler or of copyable string bytes are cut into tokens)",
 		"plain (-O2) servers run every script; ASan+UBSan servers re-run the stepped (1/2/3/5/16-byte) scripts of every input (quick: inputs up to 4 KiB, thorough: up to 16 KiB) and the single source splits of inputs up to 64 bytes (quick: of every other such input); a sanitizer report that the one-shot run of the same input also triggers is counted, not reported (C03)",
-		"part (a) of the property (generated coroutines against the reference interpreter) is not part of this build",
-	})
+	}, pa.assumptions...))
 }
